@@ -171,4 +171,9 @@ def from_value(x: Value):
     Dyadic rationals fold to :class:`Float`, :class:`Foreign` unwraps
     to its payload; containers are rebuilt only when needed.
     """
+    if isinstance(x, list | tuple):
+        # always a fresh container: the value may be one the interpreter keeps
+        # (a captured list in a cached namespace), and the caller is free to
+        # mutate what it is handed
+        return _cvt_boundary(x)
     return x if _is_boundary_value(x) else _cvt_boundary(x)
